@@ -104,10 +104,11 @@ func recvTypeName(fd *ast.FuncDecl) (name string, generic bool) {
 // BuildHookOverlay returns path -> new content for every file that needs rewriting.
 func BuildHookOverlay(repo string, hooks []HookSpec, substs []SubstSpec) (map[string][]byte, error) {
 	type fileEdit struct {
-		fset *token.FileSet
-		file *ast.File
-		path string
-		add  []string
+		fset  *token.FileSet
+		file  *ast.File
+		path  string
+		add   []string
+		dirty bool // call sites rewritten (the file must be emitted even if nothing is appended)
 	}
 	edits := map[string]*fileEdit{}
 	getFile := func(path string) (*fileEdit, error) {
@@ -225,6 +226,9 @@ func BuildHookOverlay(repo string, hooks []HookSpec, substs []SubstSpec) (map[st
 				}
 				return true
 			})
+			if n > 0 {
+				fe.dirty = true
+			}
 			if n > 0 && !declared {
 				if !noDecl {
 					fe.add = append(fe.add, fmt.Sprintf("var %s = %s.%s\n", s.To, local, parts[1]))
@@ -240,7 +244,7 @@ func BuildHookOverlay(repo string, hooks []HookSpec, substs []SubstSpec) (map[st
 	}
 	out := map[string][]byte{}
 	for path, fe := range edits {
-		if len(fe.add) == 0 {
+		if len(fe.add) == 0 && !fe.dirty {
 			continue
 		}
 		var b bytes.Buffer
